@@ -122,6 +122,22 @@ def gen_spec(rng, nsurf=None, allow=None, finite_object=None, mirrors=None, dece
     return spec
 
 
+def immerse(spec, rng):
+    """object and/or image space in a medium other than air (immersion objective, eye model): object-space index on
+    surface 0, image-space index carried by the last lens surface AND the image surface.  Separate from gen_spec so
+    that the random streams of the other checks do not change."""
+    r = rng.random()
+    if r < 0.6:
+        spec['object_material'] = ['ideal', rng.uniform(1.2, 1.7), 0.0]
+    if r > 0.4:
+        last = spec['surfaces'][-1]
+        if last.get('material') != 'mirror':
+            n = rng.uniform(1.2, 1.7)
+            last['material'] = ['ideal', n, 0.0]
+            spec['image_material'] = ['ideal', n, 0.0]
+    return spec
+
+
 def simple_spec(rng, n=None):
     """axially symmetric refracting lens of planes/spheres/conics with ideal or catalogue media"""
     return gen_spec(rng, nsurf=n, allow=['plane', 'standard', 'conic'], mirrors=False, decenter=False)
@@ -160,6 +176,8 @@ def build(spec):
     ikw = {}
     if spec.get('image_radius'):          # curved image surface (C09: the chief ray does not land in the vertex plane)
         ikw['radius'] = spec['image_radius']
+    if spec.get('image_material'):        # ['ideal', n, k]: the image surface carries the image-space medium (immersion / eye model)
+        ikw['material'] = IdealMaterial(n=spec['image_material'][1], k=spec['image_material'][2])
     o.add_surface(index=len(spec['surfaces']) + 1, **ikw)
     o.set_aperture(spec['aperture'][0], spec['aperture'][1])
     o.set_field_type(spec['field_type'])
@@ -324,4 +342,9 @@ def corpus():
         {'type': 'even_asphere', 'radius': 40.0, 'conic': 0.0, 'coefficients': [4e-5, 6e-8], 'thickness': 6.0,
          'material': ['ideal', 1.6, 0.0], 'is_stop': True},
         {'type': 'even_asphere', 'radius': -70.0, 'conic': 0.0, 'coefficients': [-3e-5], 'thickness': 50.0, 'material': 'air'}]))
+    # thin fast bi-convex lens whose faces cross at h ~ 4.4 inside the beam (negative edge thickness): the outer rays
+    # have left the second quadric behind them - no intersection, must be reported non-finite
+    out.append(dict(base, name='crossing-faces', aperture=['EPD', 12.0], surfaces=[
+        {'type': 'standard', 'radius': 20.0, 'thickness': 1.0, 'material': ['ideal', 1.5, 0.0], 'is_stop': True},
+        {'type': 'standard', 'radius': -20.0, 'thickness': 30.0, 'material': 'air'}]))
     return out
